@@ -982,6 +982,8 @@ val mk_fuzzy : expr -> z -> expr
 
 val mk_boost : expr -> z -> expr
 
+val spelling : toktype -> char list
+
 val tk : toktype -> token
 
 val cmp_op0 : token -> bool -> operator
